@@ -5,6 +5,7 @@ for d in seeded/*/; do
   props=$prop
   # seeds whose trigger lies outside the quantifier of the property they were written for are reported by the property that owns it (see seeded/README.md)
   case $id in C03-newblocking-endpoint-flag|C03-contains-counts-border-on-shape-add|C04-blocker-id-kept-when-reblocked|C04-reroute-scan-stops-at-first-marked-connector) props=C06;; C14-treeflip-bounds-inplace) props=C19;; C05-astar-push-heap-on-decrease) props=C04;; C02-avoid-mostviolated-tolerance-mismatch|C09-refine-heaps-built-once) props=C01;; esac
+  if python3 -c "import json,sys;sys.exit(0 if 'neutralised_by_fix' in json.load(open('$d/meta.json')) else 1)"; then echo "$id [$props] neutralised by a later fix: (see meta.json)"; continue; fi
   out=$(python3 tools/trial.py $d/patch.diff $props 2>&1); rc=$?
   echo "$id [$props] detected=$([ $rc -eq 0 ] && echo yes || echo NO) $(echo "$out" | grep -c VIOLATION) $(echo "$out" | grep -E 'PATCH FAILED|MACHINERY' | head -1)"
 done
